@@ -41,13 +41,17 @@ func (h *hasher) add(v int64) {
 
 // warm wraps an earlier paragraph on the wrapper (results ignored; a panic or a non-terminating
 // wrap of that paragraph is its own case's business, not this one's).
-func warm(lw *shaping.LineWrapper, prev *Case) {
+func warm(lw *shaping.LineWrapper, prev *Case, buf []rune) {
 	defer func() { recover() }()
 	pc := *prev
 	pc.Prev = nil
 	pb, err := build(&pc)
 	if err != nil {
 		return
+	}
+	if buf != nil {
+		pb.text = buf[:len(pc.Text)]
+		copy(pb.text, pc.Text)
 	}
 	if len(pc.Widths) == 0 {
 		pc.Widths = []int{40}
@@ -96,6 +100,11 @@ func (c *Case) hash() uint64 {
 	h.add(int64(c.WordSpacing))
 	h.add(int64(c.LetterSpacing))
 	h.add(b2i(c.Vertical))
+	h.add(int64(c.Cfg.Orient))
+	h.add(b2i(c.PrevShared))
+	for i := range c.Runs {
+		h.add(int64(c.Runs[i].Orient))
+	}
 	h.add(int64(c.Cfg.Policy))
 	h.add(int64(c.Cfg.Lines))
 	for _, ch := range c.Cfg.Truncator.Kind {
@@ -133,7 +142,19 @@ func (o *outcome) label(l string) { o.labels = append(o.labels, l) }
 func evaluate(t ev.TB, c *Case, b *built, m *model) (out outcome) {
 	var lw shaping.LineWrapper
 	if c.Prev != nil {
-		warm(&lw, c.Prev)
+		var buf []rune
+		if c.PrevShared {
+			// one buffer for both paragraphs: the predecessor is wrapped from it, then it is edited
+			// in place and this paragraph is wrapped from the same array
+			buf = make([]rune, max(len(c.Text), len(c.Prev.Text)))
+		}
+		warm(&lw, c.Prev, buf)
+		if buf != nil {
+			copy(buf, c.Text)
+			shared := *b
+			shared.text = buf[:len(c.Text)]
+			b = &shared
+		}
 	}
 	fail := func(v *violation, res *result) {
 		cc := *c
@@ -274,6 +295,21 @@ func classify(c *Case, m *model, out *outcome) {
 	out.label("iterator_" + c.Iter)
 	if c.Prev != nil {
 		out.label("wrapper_reused_after_another_paragraph")
+		if c.PrevShared {
+			out.label("previous_paragraph_in_the_same_rune_buffer")
+			if len(c.Prev.Text) == len(c.Text) {
+				out.label("previous_paragraph_edited_in_place_same_length")
+			}
+		}
+	}
+	if c.Vertical {
+		flagged := c.Cfg.Orient != 0
+		for i := range c.Runs {
+			flagged = flagged || c.Runs[i].Orient != 0
+		}
+		if flagged {
+			out.label("vertical_with_orientation_bits")
+		}
 	}
 	out.label("policy_" + m.policy().String())
 	if c.Cfg.Lines > 0 {
